@@ -374,6 +374,9 @@ func (c *censusT) dump(id string) {
 
 func isCensus() bool { return os.Getenv("VERIF_CENSUS") != "" }
 
+// opOverride lets a property adjust the operation generator (depth etc.)
+var opOverride func(*opgen.Options)
+
 // storeOverride lets a property adjust the data generator (list lengths etc.)
 var storeOverride func(*world.StoreOptions)
 
@@ -415,6 +418,10 @@ func genExecCaseOpt(t *rapid.T, rec *ev.Recorder, opType ast.Operation, saturate
 		o.OpType = ast.Query
 	}
 	o.IDs = entityIDs(w.Store)
+	o.MaxDepth = rapid.SampledFrom([]int{2, 3, 3, 4, 5, 6}).Draw(t, "maxdepth")
+	if opOverride != nil {
+		opOverride(&o)
+	}
 	applyGates(&o)
 	op := opgen.Generate(t, union, o)
 	if op == nil {
